@@ -50,10 +50,10 @@ type mapOrderCase struct {
 }
 
 type mapOrderRef struct {
-	all   []*types.WorkObject // every block of the history, in order
-	first int                 // index of the first block whose Process outputs are compared
-	fps   []string            // Process fingerprints of all[first:]
-	canon map[string]string
+	all          []*types.WorkObject // every block of the history, in order
+	first        int                 // index of the first block whose Process outputs are compared
+	fps          []string            // Process fingerprints of all[first:]
+	canon        map[string]string
 	commitBroken bool
 }
 
